@@ -85,6 +85,7 @@ type Exec struct {
 	BurnSpendableBefore sdk.Coins
 	genLine  []string            // the pending "# GENESIS" parameters; the chain is built lazily
 	genAol   *aoltypes.GenesisState
+	genDid   *didtypes.GenesisState
 	Custom   map[string]json.RawMessage
 	Node     *nodeState // node profile: twin replica, commit hashes, background readers
 	qHeight  int64      // height of the query being served (QH), 0 = latest
@@ -319,6 +320,13 @@ func (x *Exec) Run(lines []string) {
 			x.genesisEntry(f)
 			x.Out.Decl("%s", l)
 			x.history = append(x.history, l)
+			continue
+		}
+		if f[0] == "GD" {
+			// a DID genesis entry: GD <did key> <document ref | -> <sequence>; offered to GenesisState.Validate on its own
+			// (the validation is entry by entry) and taken into the genesis only if it passes
+			x.history = append(x.history, l)
+			x.Out.Cmd(l, x.genesisDid(f))
 			continue
 		}
 		if x.C == nil && x.genLine != nil {
@@ -790,6 +798,29 @@ func (x *Exec) genesisEntry(f []string) {
 	}
 }
 
+func (x *Exec) genesisDid(f []string) (answer string) {
+	defer func() {
+		if e := recover(); e != nil {
+			answer = "GD panic"
+		}
+	}()
+	seq, _ := strconv.ParseUint(f[3], 10, 64)
+	doc := &didtypes.DIDDocument{}
+	if f[2] != "-" {
+		doc = x.Docs[f[2]]
+	}
+	e := didtypes.NewDIDDocumentWithSeq(doc, seq)
+	one := didtypes.GenesisState{Documents: map[string]*didtypes.DIDDocumentWithSeq{s(f[1]): &e}}
+	if err := one.Validate(); err != nil {
+		return "GD invalid"
+	}
+	if x.genDid == nil {
+		x.genDid = &didtypes.GenesisState{Documents: map[string]*didtypes.DIDDocumentWithSeq{}}
+	}
+	x.genDid.Documents[s(f[1])] = &e
+	return "GD ok"
+}
+
 func (x *Exec) genesis(f []string) {
 	n, _ := strconv.Atoi(f[2])
 	bal, _ := sdk.NewIntFromString(f[3])
@@ -804,6 +835,9 @@ func (x *Exec) genesis(f []string) {
 	}
 	if x.genAol != nil {
 		custom["aol"] = app.MakeEncodingConfig().Codec.MustMarshalJSON(x.genAol)
+	}
+	if x.genDid != nil {
+		custom["did"] = app.MakeEncodingConfig().Codec.MustMarshalJSON(x.genDid)
 	}
 	x.C = NewChain(n, bals, custom, time.Unix(1700000000, 0).UTC())
 	if x.WantNode {
@@ -1171,6 +1205,35 @@ func (x *Exec) query(f []string) string {
 		}
 		var r didtypes.QueryDIDResponse
 		must(r.Unmarshal(res.Value))
+		if got := r.DidDocumentWithSeq.Document; got != nil && got.Id != s(f[2]) {
+			x.Flag("C11-read-other", fmt.Sprintf("the read operation for %s returned a document about %s", s(f[2]), got.Id))
+		}
+		if x.qHeight == 0 && !x.C.InBlock {
+			if st := x.C.App.DidKeeper.GetDIDDocument(x.C.Ctx(), s(f[2])); st.Sequence != r.DidDocumentWithSeq.Sequence {
+				x.Flag("C04-read-sequence", fmt.Sprintf("the read operation for %s reports sequence %d, the registry holds %d (the one the next proof must be made over)", s(f[2]), r.DidDocumentWithSeq.Sequence, st.Sequence))
+			}
+		}
+		return joinSp("Q", "ok", strconv.FormatUint(r.DidDocumentWithSeq.Sequence, 10), docStr(r.DidDocumentWithSeq.Document))
+	case "did.DID64":
+		// the did_base64 field verbatim (malformed encodings included)
+		res := x.C.Query("/panacea.did.v2.Query/DID", &didtypes.QueryDIDRequest{DidBase64: s(f[2])}, x.qHeight)
+		if res.Code != 0 {
+			c := queryErrClass(res)
+			if c == "Q err 5" {
+				if strings.Contains(res.Log, "deactivated") {
+					return "Q err 5 deactivated"
+				}
+				return "Q err 5 notfound"
+			}
+			return c
+		}
+		var r didtypes.QueryDIDResponse
+		must(r.Unmarshal(res.Value))
+		if got := r.DidDocumentWithSeq.Document; got != nil {
+			if want, err := base64.StdEncoding.DecodeString(s(f[2])); err != nil || got.Id != string(want) {
+				x.Flag("C11-read-other", fmt.Sprintf("a read whose did_base64 field is %q (decodes to %q, error %v) returned a document about %s", s(f[2]), want, err, got.Id))
+			}
+		}
 		return joinSp("Q", "ok", strconv.FormatUint(r.DidDocumentWithSeq.Sequence, 10), docStr(r.DidDocumentWithSeq.Document))
 	case "aol.Writer":
 		x.declAddrString(s(f[2]))
